@@ -146,6 +146,10 @@ structure Sh where
   /-- ghost: how often the cleanup block / the notify block of `set_status` was elected -/
   cleanupRuns : Nat := 0
   notifyRuns : Nat := 0
+  /-- terminal supervision events handed to the supervisor (`cleanup.notify` executed): the event of
+  `lifecycle.finish(evt)`, and after a panic in a later statement of `cleanup` the guard's `Drop` sends
+  a second one ("actor_task_cancelled") when it runs `cleanup` again -/
+  supEvents : Nat := 0
   deriving DecidableEq, Repr, Inhabited
 
 structure G where
@@ -243,7 +247,8 @@ def stepExiter (sh : Sh) (ws : List Waiter) (ex : Exiter) : Sh × List Waiter ×
     | (sh, ws, some c') => (sh, ws, { ex with pc := .set2 c' })
     | (sh, ws, none) => (sh, ws, { ex with pc := .terminate })
   | .terminate => ({ sh with flags := { sh.flags with terminated := true } }, ws, { ex with pc := .notifySup })
-  | .notifySup => ({ sh with flags := { sh.flags with supNotified := true } }, ws, { ex with pc := .unlink })
+  | .notifySup =>
+    ({ sh with flags := { sh.flags with supNotified := true }, supEvents := sh.supEvents + 1 }, ws, { ex with pc := .unlink })
   | .unlink => ({ sh with flags := { sh.flags with unlinked := true } }, ws, { ex with pc := .stopped })
   | .stopped => (sh, ws, { ex with pc := .set3 (.publish stStopped) })
   | .set3 c =>
